@@ -273,6 +273,11 @@ func execAccounts(ws []string) (out, label string, nontrivial bool, fails []fail
 		if err := cache.ResetBoard(bid); err != nil {
 			fatalf("ResetBoard(%d): %v", bid, err)
 		}
+		// as the only production caller (ptt.addBoardRecord) does: ResetBoard reloads the record from .BRD,
+		// which wipes the slot's sibling link; the re-sort makes every class resolve its children again
+		// (since /repo ebc3be0 a resolved class keeps its child count, so a stale chain is no longer
+		// silently rebuilt on every listing)
+		cache.SortBCache()
 		boardsSet[bid] = true
 		modState[bid] = bm
 		return "ok", "resetbm", false, nil
